@@ -354,8 +354,13 @@ func runValues(u *vk.Unit, p *reg.Package, meta Meta, pkg string) {
 				pv2, err := unmarshal(rt, b)
 				if err != nil {
 					cl := "own-encoding-refused"
-					if strings.Contains(err.Error(), "object properties number") {
+					switch {
+					case strings.Contains(err.Error(), "object properties number"):
 						cl = "property-count-not-in-validate"
+					case strings.Contains(err.Error(), `"{" expected: unexpected byte 110 'n'`) && strings.Contains(string(b), "null"):
+						// the encoder wrote null for a nil pointer / Null wrapper of an object type and the
+						// decoder of that object expects '{': the known nullable-object root cause (C03)
+						cl = "null-for-nullable-object"
 					}
 					u.Report(vk.F(cl, "type %s: a value that passes Validate() encodes as %s which the decoder refuses: %v", n, b, err), cs)
 					continue
